@@ -389,7 +389,12 @@ def run_torch_tool(ns, env, options, hooks=None):
     ns['os'] = osmod
     ns['print'] = fprint
 
-    class NPx:
+    class _NPMeta(type):
+        def __getattr__(cls, n):       # anything else (index bookkeeping on concrete data) is NumPy's own
+            import numpy as _np
+            return getattr(_np, n)
+
+    class NPx(metaclass=_NPMeta):
         float64 = 'f64'
         int32 = 'i32'
 
